@@ -236,3 +236,4 @@ LEVEL_NOTE = ("documented degrees transcribed from the docstrings; only straight
               "exploration never establishes absence on unexplored meshes")
 TECHNIQUE = "finite-table enumeration + property-based testing (Hypothesis) vs closed-form integrals and dense eigensolve"
 DESIGN_REF = "DESIGN.md 4/C07"
+READY = True
